@@ -79,7 +79,8 @@ def bits(e, env):
         a = bits(e[1], env)
         return (a[0] * e[2], a[1] * e[2])
     if k == "fn":
-        return bits(e[2], env)
+        a = bits(e[2], env)
+        return a if e[1] == "absv" else (2 * a[0] + 2, 2 * a[1] + 3)       # stand-ins have degree 2
     raise ValueError(e)
 
 
@@ -119,6 +120,24 @@ def _sig_names(src, fname):
     return [s.strip() for s in m.group(1).split(",")]
 
 
+STANDINS = {   # polynomial stand-ins for the transcendental functions (the same polynomials as Jacobian.Qc_fn)
+    "sigmoid": lambda v: v * v * 0.25 + 0.25,
+    "exp": lambda v: v * v * 0.5 + v + 1.0,
+    "sin": lambda v: v * 0.5,
+    "cos": lambda v: 1.0 - v * v * 0.5,
+    "tanh": lambda v: v * 0.25,
+}
+
+
+def patch_standins(func):
+    """replace the transcendental functions that the generated module defines/imports (and only those: a missing import stays
+    a NameError) by the stand-ins"""
+    g = func.__globals__
+    for nm, f in STANDINS.items():
+        if nm in g:
+            g[nm] = f
+
+
 def impl(case):
     import numpy as np
     import pyr
@@ -145,6 +164,7 @@ def impl(case):
     try:
         c = build_circuit(case)
         f, args, names, smap = c.get_run_func("rf", file_name="rfile", **kw)
+        patch_standins(f)
         smap = {k: int(v) for k, v in smap.items()}
         out["smap_run"] = smap
         dde = len(names) > 2 and names[2] == "hist"
@@ -171,6 +191,7 @@ def impl(case):
         try:
             c = build_circuit(case)
             jf, jargs, jnames, jsmap = c.get_jacobian_func("jf", file_name="jfile" + tag, sparse=sparse, **kw)
+            patch_standins(jf)
             src = open("jfile" + tag + ".py").read()
             jsmap = {k: int(v) for k, v in jsmap.items()}
             dde = len(jnames) > 2 and jnames[2] == "hist"
@@ -257,7 +278,7 @@ def dy(rng, lo, hi, den, nonzero=False):
             return str(v)
 
 
-def gen_case(rng, allow_viol=False, absv=False, want_delay=None):
+def gen_case(rng, allow_viol=False, absv=False, want_delay=None, fns=False):
     nn = rng.choice([1, 2, 2, 3])
     while True:
         ns = [rng.randint(1, 3) for _ in range(nn)]
@@ -317,6 +338,13 @@ def gen_case(rng, allow_viol=False, absv=False, want_delay=None):
         def factor(pool):
             a = rng.choice(pool)
             r = rng.random()
+            if fns and rng.random() < 0.3:
+                f = rng.choice(["sigmoid", "sigmoid", "tanh", "sincos"])    # no exp: sympy merges exp(u)*exp(v)
+                # arguments that cannot cancel symbolically (cos(b - b) -> 1 removes the import of cos from the module)
+                arg = a if r < 0.4 else ["*", a, rng.choice(pool)] if r < 0.7 else ["+", ["*", a, rng.choice(pool)], ["c", dy(rng, 0, 1, 4, nonzero=True)]]
+                if f == "sincos":       # sin and cos always together (missing-import finding, see gen_support)
+                    return ["*", ["fn", "sin", arg], ["fn", "cos", rng.choice(pool)]] if r < 0.5 else ["+", ["fn", "cos", arg], ["fn", "sin", rng.choice(pool)]]
+                return ["fn", f, arg]
             if r < 0.45:
                 return a
             if r < 0.6:
@@ -680,7 +708,7 @@ def check(ctx):
             r = ctx.rng.random()
             cases.append(gen_case(ctx.rng, allow_viol=(GUARD_DELAYED in listed and r < 0.1),
                                   absv=(GUARD_ABSV in listed and 0.1 <= r < 0.2),
-                                  want_delay=(True if k % 2 == 0 else None)))
+                                  want_delay=(True if k % 2 == 0 else None), fns=(k % 4 == 1)))
     outs = run_impl(ctx, "c12", "impl", cases, per_case_timeout=90)
     crashed = [i for i, r in enumerate(outs) if "err" in r]
     skipped = [i for i, r in enumerate(outs) if "skip" in r]
